@@ -12,6 +12,8 @@
 #include "mpienv.hpp"
 
 #include "hep/mc.hpp"
+
+#include <fcntl.h>
 #include "hep/mc-mpi.hpp"
 
 #include <cmath>
@@ -99,6 +101,10 @@ static mode_out run_serial(int kind, sz channels, int wp, int mode, std::vector<
     vf::script_engine::salt() = 2000;
     std::ostringstream captured;
     std::streambuf* const old = std::cout.rdbuf(captured.rdbuf());
+    // without a file name a writing mode works on names made of a suffix only, relative to the current directory: run there
+    int const here = file_variant == 1 ? ::open(".", O_RDONLY) : -1;
+    if (file_variant == 1 && (here < 0 || ::chdir(g_dir.c_str()) != 0)) { std::perror("scratch directory"); std::exit(2); }
+    struct back_home { int fd; ~back_home() { if (fd >= 0) { if (::fchdir(fd) != 0) std::abort(); ::close(fd); } } } const home{here};
     try
     {
         if (kind == 0)
@@ -128,7 +134,6 @@ static mode_out run_serial(int kind, sz channels, int wp, int mode, std::vector<
     out.printed = captured.str();
     out.file = read_file(file, out.file_exists);
     ::unlink(file.c_str());
-    if (file_variant == 1) ::unlink(".tmp");   // the temporary file of a writing mode without a file name
     return out;
 }
 
@@ -310,6 +315,6 @@ int main(int argc, char** argv)
 #if VF_PART_ENABLED(2)
     if (a.nshards == 1 || a.shard % 3 == 2) for_type<long double>(r);
 #endif
-    ::rmdir(g_dir.c_str());
+    vf::remove_tree(g_dir);
     return r.finish();
 }
